@@ -288,8 +288,8 @@ func (g *gen) genDocCall(i int, bad, read, inTx bool) (string, J) {
 			m, a = "dgetArr", J{"pos": p, "n": n}
 		}
 	} else if asObj {
-		k := g.r.pick(mapKeys)
-		if g.r.intn(10) < 7 {
+		k := g.r.pick(g.keyPool())
+		if g.r.intn(10) < g.putShare()+1 {
 			m, a = "dput", J{"k": k, "v": g.docValue(0, bad)}
 		} else {
 			m, a = "dremove", J{"k": k}
